@@ -223,10 +223,13 @@ def run(tier):
         key = tuple(idx[m:] + idx[:m])
         fams.setdefault(key, [PUMPS[i - 1] for i in key])
     keys = sorted(fams)
+    ones = [k for k in keys if len(k) == 1]
+    twos = [k for k in keys if len(k) == 2]
+    threes = [k for k in keys if len(k) == 3]
     if tier == "quick":
-        ones = [k for k in keys if len(k) == 1]
-        twos = [k for k in keys if len(k) == 2]
         keys = ones + rnd.sample(twos, min(len(twos), 140))
+    else:
+        keys = ones + twos + rnd.sample(threes, min(len(threes), 2500))
     sizes = [6, 12, 24] if tier == "quick" else [16, 32, 64, 128]
     jobs = [("+".join(p["n"] for p in fams[k]), [max(2, s // len(k)) * 1 for s in sizes] if False else sizes, "cycle", fams[k]) for k in keys]
     esizes = [32, 64, 128] if tier == "quick" else [64, 128, 256, 512]
